@@ -10,7 +10,10 @@ tie:    harness/c04_shapes.cc, ONE templated harness instantiated for BD_Shape /
         through constraints() / minimized_constraints() with bounds as exact rationals;
         `pplv_wr --mode c03` computes K1's exact result from the arguments as the library reports them
         and checks that every reading of the result contains it, and that each `true` of is_empty /
-        contains / is_disjoint_from holds.
+        contains / is_disjoint_from holds.  For inexact T a later reading of an unchanged object (reduced
+        form) may be weaker than an earlier one; every reading contains the internal set, so the tightest
+        reading since the last mutation is the argument of monotone operators, the latest one is used where
+        the claim is antitone (subtrahend of difference_assign, container of contains()).
 """
 from . import wr_common as w
 LEVEL = "proof"
@@ -20,6 +23,8 @@ def run(ctx):
     ctx.ensure_ppl()
     broken = ctx.prove(["PPLV.Props.C03"])
     quick = ctx.tier == "quick"
+    if not quick:
+        broken += ctx.leanchecker(["PPLV.Props.C03"])
     w.run_shapes(ctx, "c03", w.ALL_TYPES, n_hist=150 if quick else 2500, length=12 if quick else 25,
                  maxdim=3 if quick else 4)
     for b in broken:
